@@ -43,6 +43,9 @@ func bases() []func() *progen.Program {
 		df(progen.DataflowParams{Kind: "sarr", Src: "input", Size: 2, Cons: "id", Narrow: true, Map: "top", Alias: true}),
 		df(progen.DataflowParams{Kind: "cstruct", Src: "gen", Size: 1, Cons: "id", Proj: "sa.x", Wrap: 1, Pre: true}),
 		df(progen.DataflowParams{Kind: "tmap", Src: "lit", Size: 2, Cons: "id", Map: "top", Extra: "passthru"}),
+		df(progen.DataflowParams{Kind: "aa", Src: "lit", Size: 2, Cons: "id"}),
+		df(progen.DataflowParams{Kind: "sarr", Src: "lit", Size: 2, Cons: "id", Wrap: 1}),
+		df(progen.DataflowParams{Kind: "arr", Src: "lit", Size: 3, Cons: "id", Map: "top"}),
 		dn(progen.DisNestParams{Levels: []string{"p", "c"}, Sib: [2]string{"q", "r"}, Vals: 0}),
 		dn(progen.DisNestParams{Levels: []string{"f"}, Sib: [2]string{"p", "-"}, Vals: 0}),
 		ff(progen.FileParams{Out: "fs", Prod: "filew", ConsMap: true, Late: true, Retain: "pipe", TopOut: true, Mode: "rolling", Size: 2}),
